@@ -52,7 +52,7 @@ def run(ck):
         ck.leanchecker(["NfcVerif.Props.C02"])
     model = Model("drv_t12")
 
-    nlay = 2400 if ck.thorough else 240
+    nlay = 7000 if ck.thorough else 240
     f1 = f1_present()
     if f1:
         ck.notes.append("this tree still has defect F1 (empty message -> UnboundLocalError, reported by C01): "
